@@ -67,6 +67,8 @@ def parse_op(s):
     if m: return {"Tls" + m[2].capitalize(): {"k": int(m[1])}}
     m = re.match(r"^lazy(\d+)\.(get|cell_read)$", s)
     if m: return {("LazyGet" if m[2] == "get" else "LazyCellRead"): {"k": int(m[1])}}
+    m = re.match(r"^x(\d+)\.store_on_drop$", s)
+    if m: return {"DropGuardStore": {"a": int(m[1])}}
     m = re.match(r"^c(\d+)\.with_mut\(panic\)$", s)
     if m: return {"PanicInCellMut": {"c": int(m[1])}}
     m = re.match(r"^x(\d+)\.with_mut\(panic\)$", s)
